@@ -56,11 +56,22 @@ theorem dlvl_noParens {e : Expr} (h : needsParens e = false) : dlvl e = 9 := by
 section
 variable {o : Oracle} {sf : F64 → Str}
 
-theorem R_wrap {e : Expr} {T : List Tok} (k : Nat) (h : R o sf 0 e T) : R o sf k e (wrap T) := R.paren k e T h
+/-- a literal leaf whose printed token converts back (`LitOK`) is a rendering of itself -/
+theorem body_lit (v : Value) (h : LitOK o sf v) : Body o (.lit v) [litTok sf v] := by
+  cases v
+  case bool b => cases b <;> simp only [litTok]; exact Body.litFalse; exact Body.litTrue
+  case none => exact Body.litNone
+  case int n => exact Body.litTok _ _ [] (by simp [litTok, IsLitTok]) h
+  case str s => exact Body.litTok _ _ [] (by simp [litTok, IsLitTok]) h
+  case float f => exact Body.litTok _ _ [] (by simp [litTok, IsLitTok]) h
+  case dec d => exact Body.litTok _ _ [] (by simp [litTok, IsLitTok]) h
+  all_goals exact absurd h (by simp [LitOK])
+
+theorem R_wrap {e : Expr} {T : List Tok} (k : Nat) (h : R o 0 e T) : R o k e (wrap T) := R.paren k e T h
 
 /-- an operand printed through the `Operand` wrapper stands at any level -/
-theorem R_operand {e : Expr} (k : Nat) (hk : k ≤ 9) (ih : ∀ j, j ≤ dlvl e → R o sf j e (dispToks sf e)) :
-    R o sf k e (if needsParens e then wrap (dispToks sf e) else dispToks sf e) := by
+theorem R_operand {e : Expr} (k : Nat) (hk : k ≤ 9) (ih : ∀ j, j ≤ dlvl e → R o j e (dispToks sf e)) :
+    R o k e (if needsParens e then wrap (dispToks sf e) else dispToks sf e) := by
   cases hp : needsParens e
   · simp only [Bool.false_eq_true, if_false]
     exact ih k (by rw [dlvl_noParens hp]; exact hk)
@@ -77,13 +88,13 @@ theorem funcOfKw_unKw (op : UnOp) (h1 : op ≠ .neg) (h2 : op ≠ .not) : funcOf
   cases op <;> first | exact absurd rfl h1 | exact absurd rfl h2 | (simp [funcOfKw, unKw])
 
 theorem disp_sound :
-    (∀ e, Printable o sf e → ∀ k, k ≤ dlvl e → R o sf k e (dispToks sf e)) ∧
-    (∀ kvs, PrintableM o sf kvs → RMap o sf kvs (dispEntries sf kvs)) ∧
-    (∀ xs, PrintableL o sf xs → RList o sf xs (dispList sf xs)) := by
+    (∀ e, Printable o sf e → ∀ k, k ≤ dlvl e → R o k e (dispToks sf e)) ∧
+    (∀ kvs, PrintableM o sf kvs → RMap o kvs (dispEntries sf kvs)) ∧
+    (∀ xs, PrintableL o sf xs → RList o xs (dispList sf xs)) := by
   apply dispToks.mutual_induct
   · -- literal
     intro v hp k hk
-    exact R.bare k _ _ hk (by simp only [dispToks]; exact Body.lit v (by simpa [Printable] using hp))
+    exact R.bare k _ _ hk (by simp only [dispToks]; exact body_lit v (by simpa [Printable] using hp))
   · intro n _ k hk; exact R.bare k _ _ hk (by simp only [dispToks]; exact Body.ref n)
   · intro n _ k hk; exact R.bare k _ _ hk (by simp only [dispToks]; exact Body.sym n)
   · intro f a ih hp k hk
@@ -97,7 +108,10 @@ theorem disp_sound :
       exact R_wrap k (R.bare 0 _ _ (Nat.zero_le _) (Body.indexKey e _ key (R_operand 8 (by omega) (ih hp'))))
     | pos n =>
       have hp' : Printable o sf e ∧ n ≤ u64Max := by simpa [Printable] using hp
-      exact R_wrap k (R.bare 0 _ _ (Nat.zero_le _) (Body.indexPos e _ n (R_operand 8 (by omega) (ih hp'.1)) hp'.2))
+      have hd := (showNat_spec n).1
+      have := Body.indexPos (o := o) e _ (Disp.showNat n) (R_operand 8 (by omega) (ih hp'.1)) (by rw [hd]; exact hp'.2)
+      rw [hd] at this
+      exact R_wrap k (R.bare 0 _ _ (Nat.zero_le _) this)
   · -- if
     intro c t e ihc iht ihe hp k _
     have hp' : Printable o sf c ∧ Printable o sf t ∧ Printable o sf e := by simpa [Printable] using hp
